@@ -584,6 +584,22 @@ func genRevoke(tier string, emit func(string)) {
 	}
 }
 
+// A7: the slot counter at full speed — acquisitions and releases of many connections in parallel (the
+// windows inside acquireConnectionSlot and releaseConnectionSlot have no injectable call), and the
+// same race through the real paths (tunnel close vs. arriving connection), then arrivals until refused.
+func genCounter(tier string, emit func(string)) {
+	it, rounds := 60000, 3000
+	if tier == "thorough" {
+		it, rounds = 400000, 20000
+	}
+	for _, c := range [][2]int{{2, 8}, {3, 8}, {4, 6}, {2, 4}, {5, 8}, {1, 4}} {
+		emit(fmt.Sprintf("free slot lim %d thr %d it %d", c[0], c[1], it))
+	}
+	for _, limit := range []int{2, 3} {
+		emit(fmt.Sprintf("free race lim %d it %d", limit, rounds))
+	}
+}
+
 // A': random interleavings of N racing admissions at the boundary (scopes too large to enumerate).
 func genRandomInterleavings(r *common.Rand, count int, emit func(string)) {
 	for i := 0; i < count; i++ {
@@ -732,6 +748,7 @@ func generate(r *common.Rand, tier string, emit func(string)) {
 	genSlot(r, tier, emit)
 	genQuotaShapes(r, tier, emit)
 	genRevoke(tier, emit)
+	genCounter(tier, emit)
 	genMultiNode(emit)
 	genStress(tier, emit)
 	if tier == "thorough" {
